@@ -97,19 +97,25 @@ def zBlocks : List ZBlock → Bytes → Option Bytes
         | none => none
         | some bs => some (zBlockHeader false 1 n ++ [b] ++ bs)
 
-/-- Frame_Content_Size field for flag value `f` (Single_Segment set): 1, 2, 4 or 8 bytes -/
+/-- What follows the frame header descriptor.  `f = 0..3`: the Frame_Content_Size field for flag value `f`
+(Single_Segment set): 1, 2, 4 or 8 bytes.  `f = 4`: a frame WITHOUT content size, as streaming compressors write it
+(Single_Segment clear, FCS flag 0): the Window_Descriptor byte instead — `0x38` = exponent 7, mantissa 0 = a window of
+128 KiB, which covers every block this writer can produce (blocks are below 2^17 bytes). -/
 def zContentSize (f n : Nat) : Option Bytes :=
   if f = 0 then (if n < 256 then some (leBytes 1 n) else none)
   else if f = 1 then (if 256 ≤ n ∧ n < 65536 + 256 then some (leBytes 2 (n - 256)) else none)
   else if f = 2 then (if n < 2 ^ 32 then some (leBytes 4 n) else none)
   else if f = 3 then (if n < 2 ^ 64 then some (leBytes 8 n) else none)
+  else if f = 4 then some [0x38]
   else none
 
-/-- A zstd frame: magic, descriptor (FCS flag `f`, Single_Segment, no checksum, no dictionary),
-content size, blocks. -/
+/-- Frame_Header_Descriptor: FCS flag (bits 7-6), Single_Segment (bit 5), no checksum, no dictionary -/
+def zDescriptor (f : Nat) : UInt8 := if f = 4 then 0x00 else UInt8.ofNat (f * 64 + 32)
+
+/-- A zstd frame: magic, descriptor, content size (or window descriptor, see `zContentSize`), blocks. -/
 def zstdRaw (f : Nat) (plan : List ZBlock) (data : Bytes) : Option Bytes :=
   match zContentSize f data.length, zBlocks plan data with
-  | some cs, some bl => some (([0x28, 0xB5, 0x2F, 0xFD, UInt8.ofNat (f * 64 + 32)] : Bytes) ++ cs ++ bl)
+  | some cs, some bl => some (([0x28, 0xB5, 0x2F, 0xFD, zDescriptor f] : Bytes) ++ cs ++ bl)
   | _, _ => none
 
 -- the smallest frames / members (tests of the transcription; the harness cross-checks the
@@ -120,6 +126,7 @@ example : gzipStored 2 none [0x61, 0x62, 0x63] =
     [0x1f, 0x8b, 8, 0, 0, 0, 0, 0, 0, 255, 0, 2, 0, 0xfd, 0xff, 0x61, 0x62, 1, 1, 0, 0xfe, 0xff, 0x63,
      0xc2, 0x41, 0x24, 0x35, 3, 0, 0, 0] := by decide +kernel
 example : zstdRaw 0 [] [] = some [0x28, 0xB5, 0x2F, 0xFD, 0x20, 0x00, 0x01, 0x00, 0x00] := by decide +kernel
+example : zstdRaw 4 [] [5] = some [0x28, 0xB5, 0x2F, 0xFD, 0x00, 0x38, 0x09, 0x00, 0x00, 5] := by decide +kernel
 example : zstdRaw 0 [.rle 3] [7, 7, 7, 9] =
     some [0x28, 0xB5, 0x2F, 0xFD, 0x20, 0x04, 0x1a, 0, 0, 7, 0x09, 0, 0, 9] := by decide +kernel
 
